@@ -109,7 +109,10 @@ def snap(stog):
 
 def run_sequence(pystog, cfg, datasets):
     """add the datasets one by one; return the snapshots before/after each"""
-    stog = pystog.StoG(**stog_kwargs(cfg))
+    first = cfg.get("Merging_first")
+    stog = pystog.StoG(**stog_kwargs(dict(cfg, Merging=first) if first is not None else cfg))
+    if first is not None:        # the options are assigned again: only the last assignment counts
+        stog.merged_opts = dict(cfg.get("Merging") or {})
     snaps = [snap(stog)]
     cur = dict(cfg["mat"])
     for d in datasets:
